@@ -479,6 +479,24 @@ def _shared_decorator(fn):
     return wrapper
 
 
+def _other_asyncness(fn):
+    if inspect.iscoroutinefunction(fn):
+        @functools.wraps(fn)
+        def swrapper(*args, **kwargs):
+            co = fn(*args, **kwargs)
+            try:
+                co.send(None)
+            except StopIteration as e:
+                return e.value
+            raise AssertionError("suspended")
+        return swrapper
+
+    @functools.wraps(fn)
+    async def awrapper(*args, **kwargs):
+        return fn(*args, **kwargs)
+    return awrapper
+
+
 def family_callable(i, variant):
     """variant: function | method | partial"""
     src = FAMILY[i].replace(": pass", ":\n    _l = dict(locals()); _l.pop('self', None); return _l")
@@ -511,6 +529,8 @@ def check_independence(res):
     pairs = [(v, i, j) for v in ("function", "method", "partial", "wrapped")
              for i, j in itertools.permutations(range(len(FAMILY)), 2)]
     pairs += [("same-fn-partial", i, j) for i, j in itertools.permutations(range(len(PARTIALS)), 2)]
+    # the very same function bound raw and through a wraps-wrapper of the other "asyncness"
+    pairs += [("raw-vs-wrapper", i, o) for i in range(len(FAMILY)) for o in (0, 1)]
     for (variant, i, j) in pairs:
         if clear:
             clear()     # every ordered pair starts from an empty process-wide signature cache
@@ -519,9 +539,18 @@ def check_independence(res):
                 fns = [functools.partial(_partial_base, **PARTIALS[i]),
                        functools.partial(_partial_base, **PARTIALS[j])]
                 FAM = [f"partial(cb, {PARTIALS[k]})" for k in range(len(PARTIALS))]
+            elif variant == "raw-vs-wrapper":
+                raw = family_callable(i, "function")
+                fns = [raw, _other_asyncness(raw)]
+                FAM = [FAMILY[i], f"{'sync' if inspect.iscoroutinefunction(raw) else 'async'} "
+                       f"functools.wraps wrapper of `{FAMILY[i]}`"]
+                if j:
+                    fns.reverse()
+                    FAM.reverse()
             else:
                 fns = [family_callable(i, variant), family_callable(j, variant)]
                 FAM = FAMILY
+            fi, fj = (0, 1) if variant == "raw-vs-wrapper" else (i, j)
             for k, fn in enumerate(fns):
                 params = list(inspect.signature(fn).parameters.values())
                 try:
@@ -534,8 +563,8 @@ def check_independence(res):
                 except AssertionError as e:
                     res.violation({"category": "independence", "variant": variant},
                                   {"independence": [i, j, variant]},
-                                  f"after binding `{FAM[i if k else j]}` first, "
-                                  f"`{FAM[j if k else i]}` [{variant}]: {e}")
+                                  f"after binding `{FAM[fi if k else fj]}` first, "
+                                  f"`{FAM[fj if k else fi]}` [{variant}]: {e}")
                     continue
                 for (args, ukw) in shapes:
                     kw = engine_kwargs(ukw)
@@ -553,7 +582,7 @@ def check_independence(res):
                     res.stats["evaluations"] += 1
                     res.stats["independence_bindings"] += 1
                     if exp != got and not (exp is TypeError and got is TypeError):
-                        first, second = (FAM[i], FAM[j])
+                        first, second = (FAM[fi], FAM[fj])
                         res.violation(
                             {"category": "independence", "variant": variant},
                             {"independence": [i, j, variant], "args": list(args), "user_kw": ukw},
